@@ -57,3 +57,31 @@ claim("C20", "DESIGN.md 5/C20", "Lean 4 theorems by induction on the parameter t
       "the witness rel/rel/a.csv shows the premise is needed), integers stay integers, boolean forms. Determinism is definitional; purity (raw argument and program untouched) "
       "cannot be a theorem about a pure model and is decided by snapshot oracles on the real classes.",
       TB + "Python int()/float()/str() are modelled on ASCII text (sign, underscores, exponent); inf/nan, float and container text forms are outside the model (counted).")
+
+PB = ("Trusted: Lean 4.33 kernel, axioms propext/Classical.choice/Quot.sound only (audited each run); Mathlib; the hand-written model of program.py/commands.py/params.py "
+      "(load, pre-pass, cycle check, leaves, memoised pull evaluation, error wrapping) whose faithfulness is established only by the differential correspondence on "
+      "generated scenarios (event log, outcome class and line); command bodies are abstracted as 'reads its referenced results in declared-input order, then computes' - "
+      "validated for every built-in by the stub/recording wrappers; the interpreter's recursion limit is not modelled (fuel is unbounded in the theorems). ")
+claim("C01", "DESIGN.md 5/C01", "Lean 4 induction over fuel and rank on the executable run-loop model + event-log correspondence with the real Program + counting oracles",
+      "Theorems in MPilot.C01 for every acyclic program (rank function on reads), every value type and every computation: a successful Command.run keeps the invariant "
+      "(no body entered twice, finishes = memo, balanced log, everything a command reads finished before it) - runCmd_ok, run_ok; every command is executed exactly once "
+      "(run_executes_each_exactly_once, under the premise that directly referenced results are read by their consumer, which the correspondence checks for all built-ins); "
+      "re-running or re-reading executes nothing (run_idempotent, result_memoised).", PB)
+claim("C02", "DESIGN.md 5/C02", "Lean 4 theorems (the run computes a solution of the graph equations; solutions are unique) + replay of every real execute call on the model + invariance oracles",
+      "Theorems in MPilot.C02: run_sol (after a successful run every memoised result equals compute applied to the results of the commands it reads), sol_unique "
+      "(an acyclic graph has at most one such assignment: its evaluation), results_order_independent (any permutation of the commands gives the same results), "
+      "results_unaffected_by_added_commands. Metadata never reaches compute of the data commands (DataCmd has no such field). Each real execute call made while running "
+      "random typed EEMS models is replayed on the model's exec with its actual inputs; order/metadata/consumer invariance is evaluated on the real programs.", PB)
+claim("C12", "DESIGN.md 5/C12", "Lean 4 iff-characterisations of load and pre-pass acceptance + fault-injection matrix correspondence + by-construction expectation oracles",
+      "Theorems in MPilot.C12: addCommand_ok_iff (accepted by add_command iff result name fresh, required parameters present, no undeclared parameter unless extras allowed), "
+      "addCommand_errors / unknown_command (specific error with the offender's line, in the code's order), prepassCmd_ok_iff (pre-pass accepts iff every declared argument cleans), "
+      "prepassCmd_first_error, result_ref_ok_iff (a reference is accepted iff the result exists, has the required fuzziness and an accepted output kind), reject_no_effects "
+      "(a pre-pass error returns with the state untouched). Cleaning itself is characterised in C20.", PB)
+claim("C13", "DESIGN.md 5/C13", "Lean 4 theorems on the error algebra of the model + boundary correspondence + exception-type oracle at from_source()/run() and CLI subprocess runs",
+      "Theorems in MPilot.C13: runCmd_not_raw (nothing but MPilotErrors leaves Command.run, whatever fails inside), fromNodes_not_raw, prepassCmd_not_raw (load and pre-pass raise "
+      "MPilotErrors only, within the model's cleaning domain). A theorem ranges only over exception sources the model contains: new sources in the code are found by the correspondence "
+      "(unpredicted outcome class = disagreement) and by the boundary oracle over the kind-confusion matrix, corrupted files, 300 CSV fault runs through the real bodies, and the CLI.", PB)
+claim("C14", "DESIGN.md 5/C14", "Lean 4 soundness proof of the depth-first cycle check + cycle/acyclic graph enumeration correspondence + rejection oracles",
+      "Theorems in MPilot.C14: cycle_rejected_before_execution (a detected cycle makes run return RecursiveModelStructure with log and memo untouched), visit_sound / no_cycle_ranked "
+      "(if the check reports no cycle the reference graph has a rank function - so a model with any reference cycle, self-reference included, is never accepted, and by C01 evaluation "
+      "then terminates within fuel = number of commands). Completeness (an acyclic model is never rejected) is decided by the correspondence and oracle on enumerated graphs, not yet a theorem: partial.", PB)
